@@ -22,6 +22,13 @@
 //!                      core/src/draw_target/mod.rs    clear -> fill_solid       (the trait default: the draw_iter-only target
 //!                                                     itself [stack 0, native 0; also below stacks 2 and cc], `Clipped` and `Cropped`)
 //!
+//!   faults.prefix <any op above, with its stream name>               the same run; the result line additionally carries, for the
+//!                                                                   fault-free run and for the fault positions k = 0, n/2, n-1, what
+//!                                                                   `draw` returned and the ROOT's record: `ff=ok/<calls>/<calls after
+//!                                                                   error>/<log length>/<digest of the log>  k<k>=err<k>/...` — compared
+//!                                                                   with the error-aware target model (lean/EG/Model/FaultTarget.lean,
+//!                                                                   `faultRun`) for the kinds lean/EG/Driver/Faults.lean models
+//!
 //! adapter: 0 none, 1 clipped, 2 translated, 3 cropped, 4 clipped(translated), 5 translated(cropped(clipped)),
 //!          6 color_converted on the bare target (text only: BinaryColor text on an Rgb565 target)
 //! Images with 1 or 8 bits per pixel (BinaryColor / Gray8) are always drawn through `color_converted()`
@@ -61,6 +68,96 @@ fn parse_pts(s: &str) -> Vec<Point> {
 struct Outcome {
     n: usize,
     tested: usize,
+    /// `faults.prefix`: result and root record of the fault-free run and of the sampled fault positions
+    pfx: String,
+}
+
+/// `<ok | err<j>>/<calls>/<calls after error>/<log length>/<str_digest of fmt_log>`: what `draw` returned and what the
+/// recording root holds afterwards (one entry of the `faults.prefix` result line).
+fn pfx_entry(r: &Result<(), TErr>, rec: &Rec) -> String {
+    let res = match r {
+        Ok(()) => "ok".to_string(),
+        Err(TErr(j)) => format!("err{}", j),
+    };
+    format!("{}/{}/{}/{}/{}", res, rec.calls, rec.calls_after_error, rec.log.len(), str_digest(&rec.fmt_log()))
+}
+
+/// Ops of the `faults.prefix` stream: ops of the other streams of the kinds the error-aware model covers (styled
+/// rectangle / circle / ellipse / rounded rectangle, whitespace, image, pixel, pixel iterator, clear), prefixed with
+/// `faults.prefix`. Has its own generator state, so the ops of the other streams do not depend on it.
+fn gen_prefix(tier: Tier, rng: &mut Rng, emit: &mut dyn FnMut(String)) {
+    let quick = tier == Tier::Quick;
+    let modelled = |sh: &str| sh.starts_with("rect ") || sh.starts_with("circle ") || sh.starts_with("ellipse ") || sh.starts_with("rrect ");
+    let shapes: Vec<String> = shape_grid(if quick { 3 } else { 5 }, 3, &[]).into_iter().filter(|s| modelled(s)).collect();
+    let styles = style_grid(if quick { &[1, 3] } else { &[0, 1, 2, 3, 6] });
+    let mut i = 0usize;
+    for sh in &shapes {
+        for st in &styles {
+            i += 1;
+            if quick && i % 2 == 0 {
+                continue;
+            }
+            emit(format!("faults.prefix faults.shape {} {} {} {}", sh, st, i % 6, (i / 6) % 2));
+        }
+    }
+    let mut left = if quick { 150 } else { 4000 };
+    while left > 0 {
+        let sh = random_shape(rng, 20, 24);
+        if !modelled(&sh) {
+            continue;
+        }
+        left -= 1;
+        emit(format!("faults.prefix faults.shape {} {} {} {}", sh, random_style(rng, 6), rng.below(6), rng.below(2)));
+    }
+    for (x, y) in [(0, 0), (26, 22), (-100, 3)] {
+        for adapter in 0..7 {
+            for native in 0..2 {
+                emit(format!("faults.prefix faults.pixel {} {} {} {} {}", x, y, 1234 + adapter, adapter, native));
+            }
+        }
+    }
+    for pts in ["-", "0,0;1,0;2,5", "5,5;-100,2;5,5;30,30;6,5"] {
+        for adapter in 0..7 {
+            for native in 0..2 {
+                emit(format!("faults.prefix faults.pixiter {} {} {} {}", pts, 77 + adapter, adapter, native));
+            }
+        }
+    }
+    let mut wi = 0usize;
+    for font in 0..4 {
+        for mask in 0..16 {
+            for bl in 0..4 {
+                for width in [0u32, 1, 7, 40] {
+                    wi += 1;
+                    if quick && wi % 4 != 0 {
+                        continue;
+                    }
+                    emit(format!("faults.prefix faults.whitespace {} {} {} {} {} {}", font, mask, bl, width, wi % 6, (wi / 6) % 2));
+                }
+            }
+        }
+    }
+    // images: `fill_contiguous` (the two arms of `Clipped::fill_contiguous`, the cropping colour iterator) / `draw_iter` for sub-images
+    for bits in [1, 8, 16] {
+        for (w, h) in [(0, 0), (1, 1), (5, 3), (8, 2), (9, 4), (40, 30)] {
+            for sub in 0..3 {
+                for adapter in 0..6 {
+                    for native in 0..2 {
+                        emit(format!("faults.prefix faults.image {} {} {} {} {} {}", bits, w, h, sub, adapter, native));
+                    }
+                }
+            }
+        }
+    }
+    for colour in [0u32, 1, 0xffff] {
+        for adapter in 0..6 {
+            for cc in 0..2 {
+                for native in 0..2 {
+                    emit(format!("faults.prefix faults.clear {} {} {} {}", colour, adapter, cc, native));
+                }
+            }
+        }
+    }
 }
 
 /// `$mk` builds a fresh recording target, `$draw` draws onto `&mut impl DrawTarget<Color = Rgb565>`
@@ -110,8 +207,12 @@ macro_rules! fault_runs {
         // seeded random shapes: 84 / 121 calls at seed 1 in the quick / thorough tier, 103 / 132 at seed 7;
         // see the `calls:*` counters), so the quadratic cost is negligible
         let ks: Vec<usize> = (0..n).collect();
+        let mut pfx = format!("ff={}", pfx_entry(&r0, &rec0));
         for &k in &ks {
             let (r, rec) = run(Some(k));
+            if k == 0 || k == n / 2 || k + 1 == n {
+                pfx.push_str(&format!(" k{}={}", k, pfx_entry(&r, &rec)));
+            }
             $ctx.expect(r == Err(TErr(k)), &format!("C04:error-not-returned:{}", $kind), || format!("call {} of {} failed with TErr({}), draw returned {:?}", k, n, k, r));
             $ctx.expect(rec.calls == k + 1 && rec.calls_after_error == 0, &format!("C04:call-after-error:{}", $kind), || {
                 format!("call {} of {} failed; {} call(s) were made afterwards", k, n, rec.calls.saturating_sub(k + 1))
@@ -120,7 +221,7 @@ macro_rules! fault_runs {
                 format!("call {} of {} failed; the {} successful call(s) before it are not the first {} of the fault-free run", k, n, rec.log.len(), k)
             });
         }
-        Outcome { n, tested: ks.len() }
+        Outcome { n, tested: ks.len(), pfx }
     }};
 }
 
@@ -139,10 +240,14 @@ impl Module for M {
          mono_text_style.rs draw_whitespace -> fill_solid, draw_whitespace -> draw_decorations, draw_decorations -> fill_solid x2), \
          faults.clear (clear through every adapter stack, with and without color_converted on top, on both targets: translated.rs \
          clear -> clear, color_converted.rs clear -> clear, core/src/draw_target/mod.rs clear -> fill_solid [the trait default of the \
-         draw_iter-only target, of Clipped and of Cropped]). Non-trivial: the fault-free run makes at least 2 calls; distinct = op text."
+         draw_iter-only target, of Clipped and of Cropped]). faults.prefix: ops of the kinds the error-aware target model covers (styled \
+         rectangle / circle / ellipse / rounded rectangle, whitespace, images, pixel, pixel iterator, clear) whose result line also carries draw's \
+         result and the root's record (calls, calls after error, log length, log digest) of the fault-free run and of fault positions 0, n/2, n-1. \
+         Non-trivial: the fault-free run makes at least 2 calls; distinct = op text."
     }
 
     fn generate(&self, _pid: &str, tier: Tier, rng: &mut Rng, emit: &mut dyn FnMut(String)) {
+        gen_prefix(tier, &mut Rng::new(rng.0 ^ 0x5eed), emit);
         let quick = tier == Tier::Quick;
         let angles = [(0, 90_000), (30_000, 200_000), (-45_000, -300_000), (10_000, 400_000)];
         let shapes = shape_grid(if quick { 4 } else { 7 }, 3, &angles);
@@ -246,6 +351,11 @@ impl Module for M {
     }
 
     fn execute(&self, op: &str, ctx: &mut Ctx) -> String {
+        // `faults.prefix <op>`: run <op>, print the root's record of the sampled runs as well
+        let (op, want_pfx) = match op.strip_prefix("faults.prefix ") {
+            Some(inner) => (inner, true),
+            None => (op, false),
+        };
         let mut t = Toks::new(op);
         let stream = t.str();
         let out = match stream {
@@ -503,6 +613,10 @@ impl Module for M {
             49..=128 => "calls:49-128",
             _ => "calls:129+",
         });
+        if want_pfx {
+            ctx.count("prefix-ops");
+            return format!("n={} tested={} {}", out.n, out.tested, out.pfx);
+        }
         format!("n={} tested={}", out.n, out.tested)
     }
 }
